@@ -134,8 +134,8 @@ class Live(object):
             L.append('plugin\t%d\t%s\t%s\t%d\t%s' % (i, '-' if parent is None else parent, wire.enc(name), thr, wire.enc_list(methods)))
         d = self.cb.Commands._disabled.d
         for k in list(d.keys()):
-            v = d[k]
-            L.append('disabled\t%s\t%s' % (wire.enc(self.cb.canonicalName(k)), '~' if v is None else wire.enc_list(sorted(v))))
+            (ev, ps) = d[k]
+            L.append('disabled\t%s\t%d\t%s' % (wire.enc(self.cb.canonicalName(k)), bool(ev), wire.enc_list(sorted(ps))))
         dp = self.conf.supybot.commands.defaultPlugins
         for name, child in dp._children.items():
             if name == 'importantPlugins':
@@ -211,7 +211,7 @@ class Live(object):
 
     def store_dump(self):
         d = self.cb.Commands._disabled.d
-        ents = sorted((self.cb.canonicalName(k), None if d[k] is None else sorted(d[k])) for k in list(d.keys()))
+        ents = sorted((self.cb.canonicalName(k), bool(d[k][0]), sorted(d[k][1])) for k in list(d.keys()))
         return ents, sorted(self.conf.supybot.commands.disabled())
 
     def find(self, args):
@@ -310,7 +310,7 @@ def in_enable_class(history, since, c, cn):
     return False
 
 def canon_store(ents, confset):
-    return '%s # %s' % (';'.join('%s=%s' % (k, '~' if v is None else '+'.join(v)) for k, v in ents) or '-', ','.join(confset) or '-')
+    return '%s # %s' % (';'.join('%s=%d/%s' % (k, ev, '+'.join(v)) for k, ev, v in ents) or '-', ','.join(confset) or '-')
 
 def model_store(o):
     f = o.split('\t')
@@ -319,8 +319,8 @@ def model_store(o):
     ents = []
     if f[1] != '-':
         for item in f[1].split(';'):
-            k, v = item.split(':')
-            ents.append((wire.dec(k), None if v == '~' else sorted(wire.dec_list(v))))
+            k, ev, v = item.split(':')
+            ents.append((wire.dec(k), ev == '1', sorted(wire.dec_list(v))))
     return f[0] + ' ' + canon_store(sorted(ents, key=lambda e: e[0]), sorted(wire.dec_list(f[2])))
 
 def canon_calls(calls):
@@ -667,9 +667,9 @@ def explore(live, r, n_worlds, per_world, corpus=()):
             # statement tracked independently: a command disabled for P (or everywhere) and not enabled again never runs in P
             marks = set(); glob = set()
             cn = live.cb.canonicalName
-            for (k, v) in live.store_dump()[0]:
-                if v is None: glob.add(k)
-                else: marks.update((p, k) for p in v)
+            for (k, ev, v) in live.store_dump()[0]:
+                if ev: glob.add(k)
+                marks.update((p, k) for p in v)
             shared = ['rone', 'both', 'nrep', 'rbee', 'rtwo', 'erro', 'rdis', 'igno', 'r-one', 'Both', 'enable', 'nosuch']
             plug = ['VtOrderA', 'VtOrderB', 'VtOrderC', 'vtordera', 'VTORDERB', 'Misc']
             history = []
@@ -702,7 +702,7 @@ def explore(live, r, n_worlds, per_world, corpus=()):
                         else:
                             marks.add((cn(cbP.name()), c)); last_marked[(cn(cbP.name()), c)] = len(history) - 1
                     elif P is None:
-                        glob.discard(c); marks = set(m for m in marks if m[1] != c)
+                        glob.discard(c)          # what was said about single plugins stays (fix 8c1c1e9)
                     else:
                         marks.discard((cn(cbP.name()), c))
                 add(Case(dict(op='owner', text=text, history=list(history), world=winfo), impl=impl, kind='dseq',
@@ -732,6 +732,16 @@ def explore(live, r, n_worlds, per_world, corpus=()):
                                     cse.oracle_msg += ' (the defect repaired by fix 6f88b83: an errored global enable erased the per-plugin entry)'
                                 break
                     cse.input.pop('_calls', None)
+        if per_world.get('dseq', 0):
+            # what a restart would do: rebuild the store from supybot.commands.disabled; the live store must say the same
+            before = live.store_dump()
+            live.cb.Commands._disabled = live.cb.DisabledCommands()
+            after = live.store_dump()
+            ok = (before == after)
+            c = Case(dict(op='restart', history=[list(h) for h in history], world=winfo), impl=canon_store(after[0], []), oracle_ok=ok, kind='dseq',
+                     oracle_msg='' if ok else 'after the owner commands %r the live store %s differs from what the registry value gives at the next start %s' % (
+                         history, canon_store(*before), canon_store(*after)), tags=('dseq', 'restart'))
+            add(c, 'restart', lambda o: model_store('x\t' + o + '\t-').split(' ', 1)[1])
         names = sorted(set(BARE + [x for rec in live.records for x in rec[4][:6]] + [rec[2].lower() for rec in live.records]))
         def qualified():
             # a (possibly nested) plugin / group path followed by one of its methods
